@@ -333,6 +333,7 @@ class Program:
         if m and m.group(1) in CRATE_ALIAS and (CRATE_ALIAS[m.group(1)], m.group(2)) in self.items:
             return (CRATE_ALIAS[m.group(1)], m.group(2))
         m = re.match(r'^<(.+) as (.+?)>::([A-Za-z_0-9]+)(::.+)?$', n)
+        if m and m.group(1).lstrip().startswith('&'): return None      # impl for a reference type: a blanket std impl (modelled), not the impl of the referent
         if m:
             k = (lastseg(m.group(1)), traitkey(m.group(2)), m.group(3))
             if k in self.impl:
